@@ -25,7 +25,7 @@ def r_non_conflict(c):
         A = make_agg(agg, m, dict(norm_eps=eps, reg_eps=reg), c.get("u") if c.get("pref") else None)
         w = A.weighting(t64(J)).numpy()
         slack = G @ w + reg * s * s * w
-        bad = bool(np.any(slack < -1e-7 * max(1.0, abs(G).max())))
+        bad = bool(np.any(slack < -1e-7 * max(abs(G).max(), 1e-300)))
         return dict(reproduced=bad, Gw=(G @ w).tolist(), allowance=(reg * s * s * w).tolist())
     if agg in ("mgda", "mgda_rate"):
         A = make_agg("mgda", m, dict(epsilon=num(c.get("epsilon", 0)), max_iters=int(c["iters"])))
@@ -38,12 +38,12 @@ def r_non_conflict(c):
         if agg == "mgda_rate":
             return dict(reproduced=bool(qa - qb > 8 * s * s / (int(c["iters"]) + 2) + 1e-9 * max(1.0, s * s)), qa=qa, qb=qb)
         allow = s * np.sqrt(max(qa - qb, 0.0))
-        bad = bool(np.any(G @ a < -allow - 1e-6 * max(1.0, abs(G).max())))
+        bad = bool(np.any(G @ a < -allow - 1e-6 * max(abs(G).max(), 1e-300)))
         return dict(reproduced=bad, Ga=(G @ a).tolist(), allowance=float(allow))
     if agg == "cagrad":
         A = make_agg("cagrad", m, dict(c=num(c["c"]), norm_eps=num(c["norm_eps"])))
         out = A(t64(J)).numpy()
-        bad = bool(np.any(J @ out < -1e-4 * max(1.0, abs(G).max())))
+        bad = bool(np.any(J @ out < -1e-4 * max(abs(G).max(), 1e-300)))
         return dict(reproduced=bad, J_A=(J @ out).tolist())
     raise KeyError(agg)
 
@@ -58,6 +58,22 @@ def r_gram_only(c):
     name = c["agg"]
     params = dict(f=0 if m == 3 else 1, k=1) if name == "krum" else {}
     trial = 0
+    # hand-built looking matrices: entries in {-1, 0, 1} (exact zero columns, columns summing to zero, duplicated rows ...)
+    for _ in range(300):
+        n = m + 1
+        J = rng.integers(-1, 2, size=(m, n)).astype(float)
+        if not J.any():
+            continue
+        Q, _r = np.linalg.qr(rng.normal(size=(n, n)))
+        vec = list(rng.uniform(0.2, 1.0, size=m)) if name in ("constant", "dualproj") else None
+        A = make_agg(name, m, params, vec)
+        torch.manual_seed(3)
+        o1 = A(t64(J)).numpy()
+        torch.manual_seed(3)
+        o2 = A(t64(J @ Q)).numpy()
+        if not close(o2, o1 @ Q, 1e-4 if name == "cagrad" else 1e-6):
+            bad.append(f"integer matrix {J.tolist()}: A(JQ) != A(J)Q : {o2.tolist()} vs {(o1 @ Q).tolist()}")
+            break
     for sc in scales:
         for dist in ("normal", "uniform", "conflict"):
             for _ in range(3):
@@ -139,7 +155,8 @@ def r_scaling(c):
         # the same projection orders for the three runs: fix the stream
         pass
     o1, o2, o3 = _scaled_runs(A, J, c1, c2, a, b)
-    return dict(reproduced=not close(o3, a * o1 + b * o2, 1e-6), lhs=o3.tolist(), rhs=(a * o1 + b * o2).tolist())
+    sc = np.abs(J).max() * max(np.max(a * c1 + b * c2), 1e-300)
+    return dict(reproduced=not close(o3, a * o1 + b * o2, 1e-6, scale=sc), lhs=o3.tolist(), rhs=(a * o1 + b * o2).tolist())
 
 
 @handler("scaling_linear_entry")
@@ -151,4 +168,5 @@ def r_scaling_entry(c):
     vec = c.get("pref") if c["agg"] == "config" else (c.get("cw") if c["agg"] == "constant" else None)
     A = make_agg(c["agg"], m, None, vec)
     o1, o2, o3 = _scaled_runs(A, J, c1, c2, a, b)
-    return dict(reproduced=not close(o3, a * o1 + b * o2, 1e-6), lhs=o3.tolist(), rhs=(a * o1 + b * o2).tolist())
+    sc = np.abs(J).max() * max(np.max(a * c1 + b * c2), 1e-300)
+    return dict(reproduced=not close(o3, a * o1 + b * o2, 1e-6, scale=sc), lhs=o3.tolist(), rhs=(a * o1 + b * o2).tolist())
